@@ -127,7 +127,7 @@ class Interner:
 class World:
     """one array + the options every command of this history is run with"""
 
-    def __init__(self, binary, shim, rng, nd=2, np_=1, order='alpha', fake_uuid=False, multi=False, where='tmpfs', murmur=False, filters=False, splits=1):
+    def __init__(self, binary, shim, rng, nd=2, np_=1, order='alpha', fake_uuid=False, multi=False, where='tmpfs', murmur=False, filters=False, splits=1, ncontent=1):
         self.rng = rng
         self.murmur = murmur        # --test-force-murmur3: block hashes are computed by the harness itself
         self.seed = None
@@ -137,7 +137,7 @@ class World:
         extra = ['exclude *.tmp', 'exclude /exdir/', 'nohidden', 'content %s' % os.path.join(root, 'd1', 'snapraid.content')] if filters else []
         if filters:
             os.makedirs(os.path.join(root, 'd1'), exist_ok=True)
-        self.arr = Array(binary, nd=nd, np_=np_, shim=shim, root=root, extra_conf=extra, splits=splits)
+        self.arr = Array(binary, nd=nd, np_=np_, shim=shim, root=root, extra_conf=extra, splits=splits, ncontent=ncontent)
         self.order, self.fake_uuid, self.multi, self.where = order, fake_uuid, multi, where
         self.names = Interner()
         self.bids = {bytes(self.arr.bs): 0}
@@ -361,6 +361,18 @@ class World:
             if self.isfile(o[1], o[2]) and not os.path.lexists(t) and self.parent_ok(o[3], o[4]):
                 st = os.stat(self.p(o[1], o[2]))
                 done = self.write(o[3], o[4], rng.randbytes(st.st_size), st.st_mtime_ns, guard=True)
+        elif k == 'inoswap':                   # two files of a disk exchange their INODE NUMBERS; names, bytes, sizes and time-stamps stay
+            pa, pb = self.p(o[1], o[2]), self.p(o[1], o[3])
+            if self.isfile(o[1], o[2]) and self.isfile(o[1], o[3]) and o[2] != o[3] and os.stat(pa).st_nlink == 1 and os.stat(pb).st_nlink == 1:
+                sa, sb = os.stat(pa), os.stat(pb)
+                da, db = open(pa, 'rb').read(), open(pb, 'rb').read()
+                tmp = pa + '.inoswap'
+                os.rename(pa, tmp); os.rename(pb, pa); os.rename(tmp, pb)
+                for q, data, st in ((pa, da, sa), (pb, db, sb)):
+                    with open(q, 'r+b') as fh:
+                        fh.write(data); fh.truncate(len(data))
+                    os.utime(q, ns=(st.st_atime_ns, st.st_mtime_ns))
+                done = True
         elif k == 'samesec':                   # the time-stamp changes INSIDE its second: nanoseconds x -> 0, or 0 -> x; optionally other bytes of the same size
             if self.isfile(o[1], o[2]):
                 q = self.p(o[1], o[2])
